@@ -96,3 +96,10 @@ From TrV Require Import Proofs.FullStatements.
 Theorem C03_full : C03_full_statement.
 Proof. exact C03_original. Qed.
 Print Assumptions C03_full.
+
+Theorem C03_reset_egress_minmax_is_code : forall rows,
+  G.gen_reset_egr_tests_independent = true /\
+  fold_left (minmax_step G.gen_reset_egr_min G.gen_reset_egr_max G.gen_reset_egr_tests_independent) rows
+            (G.gen_reset_min_init, G.gen_reset_max_init) = (min_time rows, max_time rows).
+Proof. exact reset_egress_minmax_tie. Qed.
+Print Assumptions C03_reset_egress_minmax_is_code.
